@@ -344,6 +344,7 @@ package datafile
 //@   ensures [record]  result2 == nil ==> result0 != nil && fresh(result0) && result1 != nil && fresh(result1) && result1.Fid == reader.dataFile.ID && result1.BlockID == old(reader.blockID) && result1.Offset == old(reader.offset)
 //@   ensures [err]     result2 != nil ==> result0 == nil && result1 == nil
 //@   ensures [foreign-errors] !engineErr(result2)
+//@   assume  [record-sizes-as-written] result2 == nil ==> len(result0.Key) + len(result0.Value) <= 134217728
 //@   modifies reader.blockID, reader.offset, reader.blockBuf[*]
 
 //@ func (*datafile.DataReader).NextHintRecord
